@@ -6,14 +6,20 @@ Shapes == {[attrs |-> "none", ctattr |-> "absent", md |-> "absent", order |-> "c
            [attrs |-> "empty", ctattr |-> "absent", md |-> "absent", order |-> "canonical"]}
           \cup {[attrs |-> "present", ctattr |-> ca, md |-> m, order |-> o] :
                   ca \in {"data", "spc", "absent"}, m \in {"m1", "m2", "junk", "absent"}, o \in {"canonical", "swapped"}}
-Signers == {[sid |-> sd, sigKey |-> k, sigOver |-> so, attrs |-> sh.attrs, ctattr |-> sh.ctattr, md |-> sh.md, order |-> sh.order] :
+Signers0 == {[sid |-> sd, sigKey |-> k, sigOver |-> so, attrs |-> sh.attrs, ctattr |-> sh.ctattr, md |-> sh.md, order |-> sh.order, alg |-> "sha256", unauth |-> "none"] :
               sd \in {"A", "B"}, k \in {"k1", "k2", "k3"}, so \in {"attrs_as_encoded", "attrs_canonical", "other_attrs", "content"}, sh \in Shapes}
+(* honest signer infos with a part nobody signed added (an unauthenticated messageDigest of this or of another content), and signer infos *)
+(* that are consistently SHA-1 (digest algorithm, message digest, RSA-SHA1 signature by the right key)                                    *)
+HonestBase == {HonestSigner(n, ct, m) : n \in {"A", "B"}, ct \in {"data", "spc"}, m \in {"m1", "m2"}}
+Extra == {[s EXCEPT !.unauth = u] : s \in HonestBase, u \in {"m1", "m2"}} \cup {[s EXCEPT !.alg = "sha1"] : s \in HonestBase}
+Signers == Signers0 \cup Extra
 (* signer infos used in two-signer blobs: honest ones, transplanted ones, attacker's own under the twin identity *)
 Pair == {HonestSigner("A", "spc", "m1"), HonestSigner("A", "spc", "m2"), HonestSigner("B", "spc", "m1"), HonestSigner("At", "spc", "m1"),
          HonestSigner("At", "spc", "m2"), HonestSigner("A", "data", "m1"),
          [HonestSigner("A", "spc", "m2") EXCEPT !.sigKey = "k3"], [HonestSigner("A", "spc", "m1") EXCEPT !.sigOver = "other_attrs"],
          [HonestSigner("A", "spc", "m1") EXCEPT !.attrs = "none", !.sigOver = "content"],
-         [HonestSigner("B", "spc", "m2") EXCEPT !.order = "swapped"]}
+         [HonestSigner("B", "spc", "m2") EXCEPT !.order = "swapped"],
+         [HonestSigner("A", "spc", "m1") EXCEPT !.unauth = "m2"], [HonestSigner("A", "spc", "m2") EXCEPT !.alg = "sha1"]}
 Cts == IF Tier = "q" THEN {"data", "spc"} ELSE {"data", "spc", "other"}
 Init == /\ done = FALSE /\ cert \in CertNames
         /\ \/ /\ img = "-" /\ \E s \in Signers, ct \in Cts, co \in {"none", "m1", "m2"} : blob = [ct |-> ct, content |-> co, signers |-> <<s>>]
